@@ -191,11 +191,13 @@ CLAIMED.update({
             'labels/head flags/attributes), conll heads (= the head assignment implied by the head flags: one root, every other '
             'word attached inside its parent span), json (shape/categories/labels/attributes), deriv (an independent Lean reader of '
             'the ASCII art recovers words, shape, categories and rule symbols of every printed derivation: deriv_decode; it is '
-            'also run on the real output), html (a Lean reader decodes the MathML of every tree back to nesting, words, labels and '
+            'also run on the real output), prolog (an independent Lean term reader recovers sentence numbers, rule functors, category '
+            'spellings, the extra category arguments and all leaf fields of both the English and the Japanese format: '
+            'prolog_en_decode, prolog_ja_decode; also run on the real output), html (a Lean reader decodes the MathML of every tree back to nesting, words, labels and '
             'category segments), record numbering by sentence for every line format and prolog. All twelve printers '
             'are modelled to the character / element and diffed against the real to_string; eleven independent Python '
             'decoders compare each real output with the derivation in the format\'s own spelling.',
-            TEXT_NOTE + ' html is modelled and decoded in Lean (html_decode) and so is deriv (deriv_decode); the Prolog term reader lives in the oracle (partial, named in the evidence); '
+            TEXT_NOTE + ' html is modelled and decoded in Lean (html_decode), and so are deriv (deriv_decode) and prolog (prolog_en_decode / prolog_ja_decode); '
             'float formatting of the header scores is a parameter.',
             'DESIGN.md §4 C07'),
     'C19': (T_PROOF,
